@@ -47,6 +47,7 @@ KERNELS = [
     ("assembly/overlap_result.py", "OverlapResult.end_overhang", "OverlapResult_end_overhang"),
     ("assembly/overlap_result.py", "OverlapResult.start_row_bait_overlap", "OverlapResult_start_row_bait_overlap"),
     ("assembly/overlap_result.py", "OverlapResult.end_row_bait_overlap", "OverlapResult_end_row_bait_overlap"),
+    ("assembly/fragment.py", "Fragment.junction_tuple", "Fragment_junction_tuple"),
     ("assembly/build_utils.py", "OverhangPremise.improves", "OverhangPremise_improves"),
     ("assembly/overlap_result.py", "OverlapResult.trim_large_overhangs", "OverlapResult_trim_large_overhangs", "tests"),
     ("assembly/build_utils.py", "OverhangResolver.make_fixes", "OverhangResolver_make_fixes", "tests"),
@@ -117,6 +118,7 @@ class Tr:
         self.files = set()      # plan mode: local names aliasing the input file handle
         self.bufs = set()       # plan mode: local names of the BytesIO being filled
         self.payload_n = None   # gen mode: number of ints per yielded item
+        self.pairs = set()      # locals bound to a `(text, int)` pair (the two results of `sorted((…, …))`)
         self.aliases = {}       # tests mode: local name -> (lean text, type) for non-int locals
         self.tests = []         # tests mode: (lets, lean text) per `if`
         self.free = []          # free variables in first-use order
@@ -140,6 +142,9 @@ class Tr:
             if isinstance(e.value, int):
                 return (f"({e.value} : Int)" if e.value >= 0 else f"(({e.value}) : Int)"), "int"
             raise Unsupported(f"constant {e.value!r}")
+        if isinstance(e, ast.Subscript) and isinstance(e.value, ast.Name) and mangle(e.value.id) in self.pairs \
+                and isinstance(e.slice, ast.Constant) and e.slice.value in (0, 1):
+            return (f"{mangle(e.value.id)}.1", "text") if e.slice.value == 0 else (f"{mangle(e.value.id)}.2", "int")
         v = var_of(e)
         if v is not None:
             if v in self.aliases:
@@ -237,6 +242,56 @@ class Tr:
             r = self.plan_stmt(s, rest, ind)
             if r is not None:
                 return r
+        if isinstance(s, ast.Raise):
+            exc = s.exc
+            name = exc.func.id if isinstance(exc, ast.Call) and isinstance(exc.func, ast.Name) else (exc.id if isinstance(exc, ast.Name) else None)
+            err = {"ValueError": "value", "IndexError": "index", "KeyError": "key", "TypeError": "type"}.get(name)
+            if err is None:
+                raise Unsupported("raise of an unsupported exception")
+            self.kinds.add("raise")
+            return [pad + f"RAISE({err})"]
+        if isinstance(s, ast.Assign) and len(s.targets) == 1 and isinstance(s.targets[0], ast.Name) \
+                and isinstance(s.value, (ast.JoinedStr,)) :
+            return self.block(rest, ind)          # an error message being built: messages are never modelled
+        if isinstance(s, ast.Assign) and len(s.targets) == 1 and isinstance(s.targets[0], ast.Tuple) and len(s.targets[0].elts) == 2 \
+                and all(isinstance(n, ast.Name) for n in s.targets[0].elts) and isinstance(s.value, ast.Call) \
+                and isinstance(s.value.func, ast.Name) and s.value.func.id == "sorted" and len(s.value.args) == 1 \
+                and isinstance(s.value.args[0], ast.Tuple) and len(s.value.args[0].elts) == 2:
+            # `a, b = sorted(((n1, c1), (n2, c2)) [, reverse=True])` on two (text, int) pairs: Python's tuple order (`endLe`), stable
+            rev = False
+            for kw in s.value.keywords:
+                if kw.arg == "reverse" and isinstance(kw.value, ast.Constant) and kw.value.value in (True, False):
+                    rev = kw.value.value
+                else:
+                    raise Unsupported("sorted() keyword")
+            prs = []
+            for pe in s.value.args[0].elts:
+                if not (isinstance(pe, ast.Tuple) and len(pe.elts) == 2):
+                    raise Unsupported("sorted() of something else than two pairs")
+                (n1, t1), (c1, t2) = self.expr(pe.elts[0]), self.expr(pe.elts[1])
+                if (t1, t2) != ("text", "int"):
+                    raise Unsupported("sorted() pair types")
+                prs.append(f"({n1}, {c1})")
+            a, b = (mangle(n.id) for n in s.targets[0].elts)
+            cond = f"endLe {prs[1]} {prs[0]}" if rev else f"endLe {prs[0]} {prs[1]}"
+            saved_b, saved_p = set(self.bound), set(self.pairs)
+            self.bound |= {a, b}; self.pairs |= {a, b}
+            out = [pad + f"let srt : (List Char × Int) × (List Char × Int) := if {cond} = true then ({prs[0]}, {prs[1]}) else ({prs[1]}, {prs[0]})",
+                   pad + f"let {a} : List Char × Int := srt.1", pad + f"let {b} : List Char × Int := srt.2"] + self.block(rest, ind)
+            self.bound, self.pairs = saved_b, saved_p
+            return out
+        if isinstance(s, ast.Return) and isinstance(s.value, ast.Tuple):
+            cells = []
+            for el in s.value.elts:
+                x, t = self.expr(el)
+                if t == "text":
+                    cells.append(f"JCell.s {x}")
+                elif t == "int":
+                    cells.append(f"JCell.i {x}")
+                else:
+                    raise Unsupported("tuple element type")
+            self.kinds.add(f"tuple{len(cells)}")
+            return [pad + "RET((" + ", ".join(cells) + "))"]
         if isinstance(s, ast.Return):
             if s.value is None:
                 self.kinds.add("none")
@@ -505,12 +560,20 @@ def translate(rel, qual, lean_name, mode="value"):
         lines = tr.block(list(fn.body), 1)
         if "bool" in tr.kinds and len(tr.kinds) > 1:
             raise Unsupported("mixed Bool / Int / None results")
+        if "raise" in tr.kinds and not any(k.startswith("tuple") for k in tr.kinds):
+            raise Unsupported("raise outside a tuple-valued kernel")
     except Unsupported as e:
         return f"/- {rel}::{qual}: outside the translated subset: {e} -/\ndef {lean_name}_UNSUPPORTED : Unit := ()\n"
     if mode == "gen":
         rty, ret, retn = ("List Int" if tr.payload_n == 1 else "List (" + " × ".join(["Int"] * (tr.payload_n or 1)) + ")"), (lambda x: x), None
     elif mode == "plan":
         rty, ret, retn = "List IOp", (lambda x: x), None
+    elif any(k.startswith("tuple") for k in tr.kinds):
+        ks = {k for k in tr.kinds if k != "raise"}
+        if len(ks) != 1:
+            return f"/- {rel}::{qual}: outside the translated subset: mixed result shapes -/\ndef {lean_name}_UNSUPPORTED : Unit := ()\n"
+        n = int(next(iter(ks))[5:])
+        rty, ret, retn = "R (" + " × ".join(["JCell"] * n) + ")", (lambda x: f".ok {x}"), None
     elif "bool" in tr.kinds:
         rty, ret, retn = "Bool", (lambda x: x), None
     elif "none" in tr.kinds:
@@ -521,7 +584,9 @@ def translate(rel, qual, lean_name, mode="value"):
     for l in lines:
         s = l.strip()
         pad = l[: len(l) - len(l.lstrip())]
-        if s == "RET_NONE":
+        if s.startswith("RAISE(") and s.endswith(")"):
+            body.append(pad + (f".error .{s[6:-1]}" if rty.startswith("R ") else "RAISE_IN_NON_R"))
+        elif s == "RET_NONE":
             body.append(pad + retn)
         elif s.startswith("RET(") and s.endswith(")"):
             body.append(pad + ret(s[4:-1]))
@@ -536,7 +601,7 @@ def translate(rel, qual, lean_name, mode="value"):
 
 
 def main():
-    parts = ["/- GENERATED by harness/translate_kernels.py from /repo/src — do not edit -/", "import AgpTpf.Model.Py", "namespace AgpTpf.Gen.K", "open AgpTpf", ""]
+    parts = ["/- GENERATED by harness/translate_kernels.py from /repo/src — do not edit -/", "import AgpTpf.Model.Basic", "namespace AgpTpf.Gen.K", "open AgpTpf", ""]
     parts += ["/-- one file operation of an I/O kernel: absolute seek, relative seek (`seek(n, 1)`), read of `n` bytes appended to the result -/",
               "inductive IOp where", "  | seek (n : Int)", "  | skip (n : Int)", "  | read (n : Int)", "  deriving DecidableEq, Repr", ""]
     for k in KERNELS:
